@@ -38,14 +38,16 @@ type opDef struct {
 }
 
 func viaVars(name string, args []string) string {
-	s := name
+	s := "<stdin> -> " + name
 	for i := range args {
 		s += fmt.Sprintf(" $a%d", i)
 	}
 	return s
 }
 
-func literal(name string, args []string) string { return name + " " + strings.Join(args, " ") }
+func literal(name string, args []string) string {
+	return strings.TrimSpace("<stdin> -> " + name + " " + strings.Join(args, " "))
+}
 
 func runes(s string) []rune { return []rune(s) }
 
@@ -154,7 +156,7 @@ func findOp(name string) *opDef {
 func init() {
 	vlib.Register(&vlib.Check{
 		ID: "C38", Engine: "E2",
-		Rule: "every list of 0..L elements (L=4 quick, 5 thorough) over {\"\", a, b, B, 'a b', 10, 9, é, \"} as a JSON string array on json-typed stdin, and over the same set without \"\" as a str list (one element per line), plus cyclic lists of 8/16/24/40 elements (3 strides x every start offset), is piped through msort, mtac, prepend/append (argument lists injected as variables), match+!match (needles a,1,b,'a b',\",é,zz), left/right (1,-1,2) and prefix/suffix; stdout is decoded (JSON array with scalars stringified / lines; an empty stdout is the empty list as murex's own array readers define it) and compared with: sorted permutation in byte order; exact reverse; exact concatenation; match = order-preserving subsequence of the elements containing the needle and !match = its complement; per-element documented map of the same length (left/right count characters as documented). non-trivial = the expected output differs from the input list (for match: both parts non-empty); exit numbers and stderr are not asserted",
+		Rule: "every list of 0..L elements (L=4 quick, 5 thorough) over {\"\", a, b, B, 'a b', 10, 9, é, \"} as a JSON string array on json-typed stdin, and over the same set without \"\" as a str list (one element per line), plus cyclic lists of 8/16/24/40 elements (3 strides x every start offset), is piped through msort, mtac, prepend/append (argument lists injected as variables), match+!match (needles a,1 quick; a,1,b,'a b',\",é,zz thorough), left/right (1,-1 quick; 1,-1,2 thorough) and prefix/suffix (the thorough tier applies the extra argument variants to every list except those of exactly 5 elements); stdout is decoded (JSON array with scalars stringified / lines; an empty stdout is the empty list as murex's own array readers define it) and compared with: sorted permutation in byte order; exact reverse; exact concatenation; match = order-preserving subsequence of the elements containing the needle and !match = its complement; per-element documented map of the same length (left/right count characters as documented). non-trivial = the expected output differs from the input list (for match: both parts non-empty); exit numbers and stderr are not asserted",
 		Run:         run,
 		Replay:      replay,
 		Assumptions: []string{"element alphabet and length bounds as stated in rule", "an empty stdout is read as the empty list (lang.ArrayTemplate does the same), so the json writers' 'no data returned' error for an empty result is recorded as an outcome, not asserted"},
@@ -206,7 +208,7 @@ func run(c *vlib.Ctx) {
 			for oi := range ops {
 				o := &ops[oi]
 				vars := o.args
-				if c.Quick() {
+				if c.Quick() || len(l) == 5 {
 					vars = vars[:o.nq]
 				}
 				for _, a := range vars {
@@ -349,19 +351,20 @@ func check(w wit) (res result) {
 			}
 		}
 		res.nontrivial = len(want) > 0 && len(rest) > 0
-		r2, got2, derr2 := runProg(w, "!"+prog)
+		nprog := strings.Replace(prog, "-> match", "-> !match", 1)
+		r2, got2, derr2 := runProg(w, nprog)
 		res.outcome += " !" + status(r2)
 		if cl, d := g3util.Universal(r2); cl != "" {
-			res.clause, res.detail = cl, "!"+prog+": "+d
+			res.clause, res.detail = cl, nprog+": "+d
 			return
 		}
 		if derr2 != nil {
-			res.clause, res.detail = "output-decodes", fmt.Sprintf("!%s: %v; stdout=%q", prog, derr2, vlib.Clip(r2.Stdout, 200))
+			res.clause, res.detail = "output-decodes", fmt.Sprintf("%s: %v; stdout=%q", nprog, derr2, vlib.Clip(r2.Stdout, 200))
 			return
 		}
 		if !g3util.EqualLists(got2, rest) {
 			res.clause = o.clause
-			res.detail = fmt.Sprintf("`!%s` on %s list %q printed %q (exit %d, stderr %q) while `%s` printed %q; together they must split the input into %q and %q", prog, w.Enc, w.List, got2, r2.Exit, vlib.Clip(r2.Stderr, 160), prog, got, want, rest)
+			res.detail = fmt.Sprintf("`%s` on %s list %q printed %q (exit %d, stderr %q) while `%s` printed %q; together they must split the input into %q and %q", nprog, w.Enc, w.List, got2, r2.Exit, vlib.Clip(r2.Stderr, 160), prog, got, want, rest)
 			return
 		}
 	}
